@@ -11,10 +11,10 @@ PYTEST_PREFIX = "C13/"
 TECHNIQUE = "runtime monitoring: complete enumeration of a malformed-argument grammar under a frame monitor (exception class, no side effect)"
 LEVEL = "fault_enumeration"
 RULE = ("A finite grammar of malformed arguments is enumerated COMPLETELY at every position of each base game: teams in "
-        "{None, tuple, dict, set, str, int, generator, [], [one team]}; team i in {tuple, None, int, str, dict, bare "
-        "rating, []}; player (i,j) in {None, int, float, str, (mu,sigma) tuple, dict, a rating of each of the four other "
+        "{None, tuple, dict, set, str, int, generator, deque, frozenset, [], [one team]}; team i in {tuple, deque, set, None, "
+        "int, str, dict, bare rating, []}; player (i,j) in {None, int, float, str, (mu,sigma) tuple, dict, a rating of each of the four other "
         "models, the rating class, a nested list}; ranks/scores in {tuple, str, non-zero int/float, dict, set, range, "
-        "generator, True, length n-1, length n+1, element i in {None, str, list, tuple, complex, a rating}}; both "
+        "generator, True, deque, array, bytes, length n-1, length n+1, element i in {None, str, list, tuple, complex, a rating}}; both "
         "selectors given; plus containers that were ACCEPTED once and are then edited in place to be malformed and passed "
         "again. Applied to rate (all) and the three predict operations (teams part). Oracle: the call raises "
         "TypeError or ValueError, and a frame monitor finds every rating reachable from the arguments and the model's "
@@ -76,6 +76,8 @@ class _Variants:
         yield "teams=str", mk(lambda m, t: "teams")
         yield "teams=int", mk(lambda m, t: 3)
         yield "teams=generator", mk(lambda m, t: _gen(t))
+        yield "teams=deque", mk(lambda m, t: __import__("collections").deque(t))
+        yield "teams=frozenset of tuples", mk(lambda m, t: frozenset(tuple(x) for x in t))
         yield "teams=[]", mk(lambda m, t: [])
         yield "teams=[one team]", mk(lambda m, t: [t[0]])
         for i in range(self.n):
@@ -86,6 +88,8 @@ class _Variants:
                     return t
                 return b
             yield f"team[{i}]=tuple", at(i, lambda m, x: tuple(x))
+            yield f"team[{i}]=deque", at(i, lambda m, x: __import__("collections").deque(x))
+            yield f"team[{i}]=set", at(i, lambda m, x: set(x))
             yield f"team[{i}]=None", at(i, lambda m, x: None)
             yield f"team[{i}]=int", at(i, lambda m, x: 7)
             yield f"team[{i}]=str", at(i, lambda m, x: "team")
@@ -125,6 +129,9 @@ class _Variants:
             yield f"{sel}=range", {sel: range(1, n + 1)}
             yield f"{sel}=generator", {sel: _gen(list(good))}
             yield f"{sel}=True", {sel: True}
+            yield f"{sel}=deque", {sel: __import__("collections").deque(good)}
+            yield f"{sel}=array", {sel: __import__("array").array("d", [float(i) for i in range(n)])}
+            yield f"{sel}=bytes", {sel: bytes(range(1, n + 1))}
             yield f"{sel}=len n-1", {sel: list(range(1, n))}
             yield f"{sel}=len n+1", {sel: list(range(1, n + 2))}
             for i in range(n):
